@@ -20,6 +20,7 @@ RULE = (
     "constant of the reference structure) and equal. Non-trivial: always (all fields set); "
     "distinct = hash of the case (structure + value seed)."
     " Float texts use every spelling [+-]?(d+[.d*]|.d+)([eE][+-]?d+)?; decimal-second texts carry 3..6 fraction digits; text fields are blank- or NUL-padded. Stage 'in-place-pairs': two leaders at the same root, one after the other, both judged."
+    " Half of the cases inject a transient I/O error: the 1st, 2nd, 3rd, 5th or 8th read of the leader file fails once with OSError during the open; the open may raise it, but a tree that is returned carries the complete /metadata of the file."
 )
 ASSUMPTIONS = [
     "layout/*.json + layout/exposure_*.json (frozen, hand audited) stand in for the JAXA format document",
@@ -52,6 +53,8 @@ def cases(draw):
         "policy": draw(st.sampled_from(["decoy", "decoy", "blank"])),
         "enum_cycle": draw(st.integers(0, 11)),
         "vseed": draw(st.integers(0, 2**32 - 1)),
+        # the n-th read of the leader file fails once with OSError (None: no fault)
+        "io_error": draw(st.sampled_from([None, None, None, None, None, 1, 2, 3, 5, 8])),
     }
 
 
@@ -69,12 +72,27 @@ def classify(case):
         "att>=100" if ld["n_att"] >= 100 else "att<100",
         f"policy={case['policy']}",
     ]
+    if case.get("io_error"):
+        labels.append("transient-read-error")
     return True, labels
 
 
 def run_case(case):
     spec = common.spec_from(case)
     files, info = product.build_product(spec)
+    if case.get("io_error"):
+        # an open during which one read of the leader fails: it may raise that OSError, but a
+        # tree that is returned carries the complete /metadata of the file
+        with common.open_under_read_fault(files, info["names"]["sar_leader"], case["io_error"], use_cache=False) as (tree, err, consumed):
+            if err is not None:
+                return common.judge_fault_error(err, "open_alos2 while a read of the leader fails")
+            flat, err = harness.guard(harness.flatten, tree)
+            if err is not None:
+                return [harness.disc("exception", "flatten", "loadable tree", harness.exc_text(err))]
+        out = check_leader(info, spec, flat)
+        for d in out:
+            d.setdefault("context", {})["during"] = "an open in which a read of the leader " + ("failed with OSError" if consumed else "was to fail (no such read happened)")
+        return out
     with harness.Materialised(files, "memory") as prod:
         tree, err = harness.guard(harness.open_tree, prod.url, use_cache=False)
         if err is not None:
